@@ -1,12 +1,15 @@
 import PepitVerif.Props.C03
 import Mathlib.Data.Finset.Lattice.Fold
 import Mathlib.Data.Fintype.Basic
+import Mathlib.Analysis.Convex.Hull
+import Mathlib.Analysis.Normed.Module.Convex
+import Mathlib.Analysis.InnerProductSpace.Convex
 
 /-!
 # Property C04, sufficiency ("a finite primal value is attained by a real member of the class")
 
 For the classes whose interpolating member has a closed form — `ConvexFunction`,
-`ConvexLipschitzFunction`, `StronglyConvexFunction` — every finite family of samples that satisfies
+`ConvexLipschitzFunction`, `StronglyConvexFunction`, `ConvexSupportFunction`, `ConvexIndicatorFunction` — every finite family of samples that satisfies
 the *regenerated* constraints (`Gen.*`) on every pair of distinct samples (every such pair is
 instantiated: `mem_pairsOf`) is the trace of a real member: the pointwise maximum of the affine
 (resp. quadratic) minorants.  Together with the `sound` theorems of C03 this makes the generated
@@ -192,5 +195,144 @@ example : ∀ i j : Fin 2, i ≠ j →
   rw [den_ConvexFunction_convexity]
   simp only [Canon.convexity, sv, fvOf]
   fin_cases i <;> fin_cases j <;> simp at hij ⊢
+
+/-- **ConvexSupportFunction: sufficient.**  Samples satisfying the regenerated `fenchel_value`, `lipschitz_continuity`
+and `convexity` constraints are the values and subgradients of the support function of the finite set
+`{g_j}` — a convex, positively homogeneous, `M`-Lipschitz function -/
+theorem ConvexSupportFunction.interpolable (M : ℚ) (hM : 0 ≤ M) (x g : ι → E) (f : ι → ℝ)
+    (hf : ∀ i, QForm.den (sv (x i) (g i) (x i) (g i)) (fvOf (f i) (f i)) (Gen.ConvexSupportFunction.fenchel_value M) = 0)
+    (hl : ∀ i, QForm.den (sv (x i) (g i) (x i) (g i)) (fvOf (f i) (f i)) (Gen.ConvexSupportFunction.lipschitz_continuity M) ≤ 0)
+    (hc : ∀ i j, i ≠ j →
+      QForm.den (sv (x i) (g i) (x j) (g j)) (fvOf (f i) (f j)) (Gen.ConvexSupportFunction.convexity M) ≤ 0) :
+    ∃ F : E → ℝ,
+      (∀ a b t, 0 ≤ t → t ≤ 1 → F (t • a + (1 - t) • b) ≤ t * F a + (1 - t) * F b) ∧
+      (∀ y z, |F y - F z| ≤ (M : ℝ) * ‖y - z‖) ∧
+      (∀ (c : ℝ) y, 0 ≤ c → F (c • y) = c * F y) ∧
+      ∀ i, F (x i) = f i ∧ IsSubgrad F (x i) (g i) := by
+  have hfi : ∀ i, f i = ⟪g i, x i⟫ := by
+    intro i
+    have := hf i
+    rw [den_ConvexSupportFunction_fenchel_value] at this
+    simp only [Canon.fenchel, sv, fvOf] at this
+    linarith
+  have hg : ∀ j, ‖g j‖ ≤ (M : ℝ) := by
+    intro j
+    have hM' : (0 : ℝ) ≤ (M : ℝ) := by exact_mod_cast hM
+    have := hl j
+    rw [den_ConvexSupportFunction_lipschitz_continuity] at this
+    simp only [Canon.gradBound, sv, real_inner_self_eq_norm_sq] at this
+    have h0 : 0 ≤ ‖g j‖ := norm_nonneg _
+    nlinarith
+  have hcv : ∀ i j, ⟪x j, g i⟫ ≤ ⟪x j, g j⟫ := by
+    intro i j
+    by_cases hij : i = j
+    · subst hij; exact le_refl _
+    · have := hc i j hij
+      rw [den_ConvexSupportFunction_convexity] at this
+      simp only [Canon.supportConvexity, sv, inner_sub_right] at this
+      linarith
+  -- the support function of {g_j}: pieces with zero offset
+  set f0 : ι → ℝ := fun j => ⟪g j, x j⟫ with hf0
+  have piece : ∀ y j, f0 j + ⟪g j, y - x j⟫ + (0 : ℝ) / 2 * ‖y - x j‖ ^ 2 = ⟪g j, y⟫ := by
+    intro y j; simp only [hf0, inner_sub_right]; ring
+  have h' : ∀ i j, f0 i ≥ f0 j + ⟪g j, x i - x j⟫ + (0 : ℝ) / 2 * ‖x i - x j‖ ^ 2 := by
+    intro i j
+    rw [piece (x i) j]
+    simp only [hf0]
+    rw [real_inner_comm (x i) (g j), real_inner_comm (x i) (g i)]
+    exact hcv j i
+  have hval : ∀ y, maxMinorant 0 x g f0 y = Finset.univ.sup' Finset.univ_nonempty (fun j => ⟪g j, y⟫) := by
+    intro y; unfold maxMinorant; congr 1; funext j; exact piece y j
+  refine ⟨maxMinorant 0 x g f0, ?_, ?_, ?_, ?_⟩
+  · intro a b t h0 h1
+    have := maxMinorant_convex 0 x g f0 a b t h0 h1
+    simpa using this
+  · intro y z
+    have h1 := maxMinorant_lipschitz (M : ℝ) x g f0 hg y z
+    have h2 := maxMinorant_lipschitz (M : ℝ) x g f0 hg z y
+    rw [norm_sub_rev] at h2
+    rw [abs_le]; constructor <;> linarith
+  · intro c y hc0
+    rw [hval, hval]
+    apply le_antisymm
+    · apply Finset.sup'_le
+      intro j _
+      rw [real_inner_smul_right]
+      exact mul_le_mul_of_nonneg_left (Finset.le_sup' (fun j => ⟪g j, y⟫) (Finset.mem_univ j)) hc0
+    · obtain ⟨j, _, hj⟩ := Finset.exists_mem_eq_sup' Finset.univ_nonempty (fun j => ⟪g j, y⟫)
+      rw [hj, ← real_inner_smul_right]
+      exact Finset.le_sup' (fun j => ⟪g j, c • y⟫) (Finset.mem_univ j)
+  · intro i
+    refine ⟨?_, ?_⟩
+    · rw [maxMinorant_interp 0 x g f0 h' i, hfi i]
+    · intro y
+      have := maxMinorant_subgrad 0 x g f0 h' i y
+      simpa using this
+
+/-- **ConvexIndicatorFunction: sufficient.**  Samples satisfying the regenerated `value`, `convexity` (normal cone)
+and `diameter` constraints are the trace of the indicator function of a convex set of diameter at most `D`: the
+convex hull of the sample points -/
+theorem ConvexIndicatorFunction.interpolable (D : ℚ) (hD : 0 ≤ D) (x g : ι → E) (f : ι → ℝ)
+    (hv : ∀ i, QForm.den (sv (x i) (g i) (x i) (g i)) (fvOf (f i) (f i)) (Gen.ConvexIndicatorFunction.value D) = 0)
+    (hn : ∀ i j, i ≠ j →
+      QForm.den (sv (x i) (g i) (x j) (g j)) (fvOf (f i) (f j)) (Gen.ConvexIndicatorFunction.convexity D) ≤ 0)
+    (hd : ∀ i j, i ≠ j →
+      QForm.den (sv (x i) (g i) (x j) (g j)) (fvOf (f i) (f j)) (Gen.ConvexIndicatorFunction.diameter D) ≤ 0) :
+    ∃ C : Set E, Convex ℝ C ∧ (∀ y ∈ C, ∀ z ∈ C, ‖y - z‖ ≤ (D : ℝ)) ∧
+      ∀ i, x i ∈ C ∧ f i = 0 ∧ ∀ y ∈ C, ⟪g i, y - x i⟫ ≤ 0 := by
+  have hD' : (0 : ℝ) ≤ (D : ℝ) := by exact_mod_cast hD
+  refine ⟨convexHull ℝ (Set.range x), convex_convexHull ℝ _, ?_, ?_⟩
+  · -- diameter: the distance to a fixed point is a convex function, bounded on the generators
+    have hpair : ∀ i j, ‖x i - x j‖ ≤ (D : ℝ) := by
+      intro i j
+      by_cases hij : i = j
+      · subst hij; simpa using hD'
+      · have := hd i j hij
+        rw [den_ConvexIndicatorFunction_diameter] at this
+        simp only [Canon.diameter, sv, real_inner_self_eq_norm_sq] at this
+        have h0 : 0 ≤ ‖x i - x j‖ := norm_nonneg _
+        nlinarith
+    have step1 : ∀ i, ∀ z ∈ convexHull ℝ (Set.range x), ‖x i - z‖ ≤ (D : ℝ) := by
+      intro i z hz
+      have hsub : Set.range x ⊆ Metric.closedBall (x i) (D : ℝ) := by
+        rintro _ ⟨j, rfl⟩
+        rw [Metric.mem_closedBall, dist_eq_norm, norm_sub_rev]; exact hpair i j
+      have := convexHull_min hsub (convex_closedBall (x i) (D : ℝ)) hz
+      rw [Metric.mem_closedBall, dist_eq_norm, norm_sub_rev] at this; exact this
+    intro y hy z hz
+    have hsub : Set.range x ⊆ Metric.closedBall z (D : ℝ) := by
+      rintro _ ⟨j, rfl⟩
+      rw [Metric.mem_closedBall, dist_eq_norm]; exact step1 j z hz
+    have := convexHull_min hsub (convex_closedBall z (D : ℝ)) hy
+    rw [Metric.mem_closedBall, dist_eq_norm] at this; exact this
+  · intro i
+    refine ⟨subset_convexHull ℝ _ ⟨i, rfl⟩, ?_, ?_⟩
+    · have := hv i
+      rw [den_ConvexIndicatorFunction_value] at this
+      simpa [Canon.valueZero, fvOf] using this
+    · -- normal cone: a half-space containing every sample point contains the hull
+      intro y hy
+      have hsub : Set.range x ⊆ {y | ⟪g i, y⟫ ≤ ⟪g i, x i⟫} := by
+        rintro _ ⟨j, rfl⟩
+        show ⟪g i, x j⟫ ≤ ⟪g i, x i⟫
+        by_cases hij : j = i
+        · subst hij; exact le_refl _
+        · have := hn j i hij
+          rw [den_ConvexIndicatorFunction_convexity] at this
+          simp only [Canon.normalCone, sv, inner_sub_right] at this
+          linarith
+      have hconv : Convex ℝ {y : E | ⟪g i, y⟫ ≤ ⟪g i, x i⟫} := by
+        intro a ha b hb s t hs ht hst
+        show ⟪g i, s • a + t • b⟫ ≤ ⟪g i, x i⟫
+        rw [inner_add_right, real_inner_smul_right, real_inner_smul_right]
+        have ha' : ⟪g i, a⟫ ≤ ⟪g i, x i⟫ := ha
+        have hb' : ⟪g i, b⟫ ≤ ⟪g i, x i⟫ := hb
+        calc s * ⟪g i, a⟫ + t * ⟪g i, b⟫ ≤ s * ⟪g i, x i⟫ + t * ⟪g i, x i⟫ :=
+              add_le_add (mul_le_mul_of_nonneg_left ha' hs) (mul_le_mul_of_nonneg_left hb' ht)
+          _ = ⟪g i, x i⟫ := by rw [← add_mul, hst, one_mul]
+      have := convexHull_min hsub hconv hy
+      rw [inner_sub_right]
+      have h2 : ⟪g i, y⟫ ≤ ⟪g i, x i⟫ := this
+      linarith
 
 end Pepit.C04
